@@ -16,5 +16,5 @@ for name in sorted(os.listdir(base)):
     if missed:
         cell += ' (not by: ' + ', '.join(f"{k} [{det[k.replace(' ', ':')]['outcome'].lower()}]" for k in missed) + ')'
     s = m.get('summary', '').replace('|', '/').replace('\n', ' ')
-    n = m.get('needs', '').replace('|', '/').replace('\n', ' ')
+    n = (m.get('needs') or m.get('trigger') or '').replace('|', '/').replace('\n', ' ')
     print(f"| {name} | {s[:160]} | {n[:140]} | {cell} |")
